@@ -409,3 +409,52 @@ def sock_wf(s):
     return s.server.ping_timeout >= 0 and s.server.ping_interval >= 0 and \
         (s.last_ping is None or isinstance(s.last_ping, float)) and \
         s.queue.unf >= len(s.queue.items)
+
+
+# --- C11: the OPEN handshake -----------------------------------------------------------------------
+
+def upgrades_offered(server, sid_upgraded, transport):
+    """WebSocket is named only when an upgrade would actually be accepted."""
+    if server.allow_upgrades and 'websocket' in server.transports and \
+            server._async['websocket'] is not None and not sid_upgraded and \
+            transport != 'websocket':
+        return ['websocket']
+    return []
+
+
+def open_info(server, sid, transport):
+    """Content of the OPEN packet, from the configuration (milliseconds truncated)."""
+    return {
+        'sid': sid,
+        'upgrades': upgrades_offered(server, False, transport),
+        'pingTimeout': int(server.ping_timeout * 1000),
+        'pingInterval': int((server.ping_interval + server.ping_interval_grace_period) * 1000),
+        'maxPayload': server.max_http_buffer_size,
+    }
+
+
+def connect_accepted(ret):
+    return ret is None or ret is True
+
+
+def cookie_value(sid, attributes):
+    """name=sid followed, in configuration order, by '; k' for True attributes, '; k=v' for
+    string attributes (or a callable's string result); False attributes are omitted."""
+    cookie = attributes.get('name', 'io') + '=' + sid
+    for attribute, value in attributes.items():
+        if attribute == 'name':
+            continue
+        if callable(value):
+            value = value()
+        if value is True:
+            cookie += '; ' + attribute
+        elif value is False:
+            cookie += ''
+        else:
+            cookie += '; ' + attribute + '=' + value
+    return cookie
+
+
+def grows(log, old_log):
+    """An append-only ghost log: the old content is a prefix of the new."""
+    return len(log) >= len(old_log) and log[0:len(old_log)] == old_log
